@@ -400,7 +400,7 @@ func reifyValue(
 	}
 
 	baseType := chaseTypePointers(t)
-	if tConfig.ConvertibleTo(baseType) {
+	if baseType.Kind() == reflect.Struct && tConfig.ConvertibleTo(baseType) {
 		cfg, err := val.toConfig(opts.opts)
 		if err != nil {
 			return reflect.Value{}, raiseExpectedObject(opts.opts, val)
@@ -484,7 +484,7 @@ func reifyMergeValue(
 
 	baseType := chaseTypePointers(old.Type())
 
-	if tConfig.ConvertibleTo(baseType) {
+	if baseType.Kind() == reflect.Struct && tConfig.ConvertibleTo(baseType) {
 		sub, err := val.toConfig(opts.opts)
 		if err != nil {
 			return reflect.Value{}, raiseExpectedObject(opts.opts, val)
